@@ -693,3 +693,128 @@ func (g *Grammar) contentChild(ci *CtxInfo, child string) bool {
 	}
 	return false
 }
+
+// AdmitsLineBreak: can a token of lexer rule `name` contain a line break? (a literal or set containing \n, a negated set or
+// negated character that does not exclude \n, the wildcard `.`, or a reference to a rule that can)
+func (g *Grammar) AdmitsLineBreak(name string) bool {
+	return g.admitsLB(name, map[string]bool{})
+}
+
+func (g *Grammar) admitsLB(name string, seen map[string]bool) bool {
+	if seen[name] {
+		return false
+	}
+	seen[name] = true
+	lr := g.lrule[name]
+	if lr == nil {
+		return false
+	}
+	raw := lr.Raw
+	if i := strings.Index(raw, "->"); i >= 0 {
+		raw = raw[:i]
+	}
+	hasNL := func(s string) bool { return strings.Contains(s, `\n`) || strings.Contains(s, "\n") }
+	neg := false
+	for i := 0; i < len(raw); i++ {
+		c := raw[i]
+		switch {
+		case c == '~':
+			neg = true
+			continue
+		case c == '\'':
+			j := i + 1
+			for j < len(raw) && raw[j] != '\'' {
+				if raw[j] == '\\' {
+					j++
+				}
+				j++
+			}
+			lit := raw[i+1 : min(j, len(raw))]
+			if neg {
+				if !hasNL(lit) {
+					return true
+				}
+			} else if hasNL(lit) {
+				return true
+			}
+			i = j
+		case c == '[':
+			j := i + 1
+			for j < len(raw) && raw[j] != ']' {
+				if raw[j] == '\\' {
+					j++
+				}
+				j++
+			}
+			set := raw[i+1 : min(j, len(raw))]
+			if neg {
+				if !hasNL(set) {
+					return true
+				}
+			} else if hasNL(set) {
+				return true
+			}
+			i = j
+		case c == '.':
+			return true
+		case c >= 'A' && c <= 'Z':
+			j := i
+			for j < len(raw) && (raw[j] == '_' || raw[j] >= 'A' && raw[j] <= 'Z' || raw[j] >= '0' && raw[j] <= '9') {
+				j++
+			}
+			if g.admitsLB(raw[i:j], seen) {
+				return true
+			}
+			i = j - 1
+		case c == ' ' || c == '\t' || c == '\n':
+			continue
+		}
+		neg = false
+	}
+	return false
+}
+
+// RuleAdmitsLineBreak: can the text of parser rule `rule` contain a line break inside one of its tokens?
+func (g *Grammar) RuleAdmitsLineBreak(rule string) bool {
+	seen := map[string]bool{}
+	var walk func(r string) bool
+	var elems func(es []*Elem) bool
+	elems = func(es []*Elem) bool {
+		for _, e := range es {
+			switch e.Kind {
+			case ekToken:
+				if g.AdmitsLineBreak(e.Name) {
+					return true
+				}
+			case ekRule:
+				if walk(e.Name) {
+					return true
+				}
+			case ekGroup:
+				for _, a := range e.Group {
+					if elems(a.Elems) {
+						return true
+					}
+				}
+			}
+		}
+		return false
+	}
+	walk = func(r string) bool {
+		if seen[r] {
+			return false
+		}
+		seen[r] = true
+		pr := g.prule[r]
+		if pr == nil {
+			return false
+		}
+		for _, a := range pr.Alts {
+			if elems(a.Elems) {
+				return true
+			}
+		}
+		return false
+	}
+	return walk(rule)
+}
